@@ -10,7 +10,7 @@
    u64 range of the limiter's clock: [B + tau + tau < U64] for the latest time B considered
    (U64 = 2^64 ns, about 584 years after the limiter was created). *)
 From Coq Require Import List NArith Bool Lia.
-From Discv5V Require Import Generated.Params Model.Limiter Proofs.Limiter.
+From Discv5V Require Import Generated.Params Model.Limiter Proofs.Limiter Proofs.LimiterGap.
 Import ListNotations.
 Local Open Scope N_scope.
 
@@ -362,3 +362,85 @@ Proof.
   split; [reflexivity|]. eexists. split; [reflexivity|]. cbn. discriminate.
 Qed.
 Print Assumptions C18_ban_lasts_example.
+
+(* ---------------------------------------------------------------------------------------------- *)
+(* the window bound stated about the FILTER (gap audit, notes/gap_audit_C14_C20.md) *)
+
+(* The theorems above bound what ONE Limiter accepts.  These bound what the filter lets through:
+   [frun f p evs] is any history of the filter and the global permit/ban list - unsolicited and
+   solicited datagrams (FInbound), direct calls of the two passes, prune_limiter, the handler's
+   unban check and the application's permit/ban calls, in any order, with times that do not go
+   back.  [count_obs c evs os] counts the events that [c] selects:
+     ip_stage_pass P    an unsolicited datagram (or initial_pass call) whose source IP satisfies P
+                        was not dropped at the IP stage;
+     node_stage_pass y  an unsolicited datagram (or final_pass call) of node id y was delivered.
+   [A, B] is any window that contains the history, [l] the limiter's state at its beginning
+   (wfl / linv hold of every state a limiter can be in, C18_reachable_limiter_states, and of a new
+   one, C18_fresh_limiter_is_full_bucket).  The permit-list hypotheses say that the counted sender
+   is not on the permit list during the window (a permit-listed sender bypasses the limiter: that
+   is the next clause of the property).  Solicited datagrams (FInbound true) are not counted. *)
+
+(* from one IP *)
+Theorem C18_filter_window_bound_per_ip :
+  forall evs f p r l A B x,
+    enabled f = true -> rate f = Some r -> ip_rl r = Some l -> wfl l -> linv l (A - init_time r) ->
+    mem x (permit_ips p) = false -> Forall (fun e => no_permit_ip (N.eqb x) (fst e)) evs ->
+    init_time r <= A -> mono_ev A evs -> Forall (fun e => snd e <= B) evs -> A <= B ->
+    (B - init_time r) + tau l + tau l < U64 ->
+    tt l * count_obs (ip_stage_pass (N.eqb x)) evs (snd (frun f p evs)) <= tau l + (B - A).
+Proof. exact filter_window_ip. Qed.
+Print Assumptions C18_filter_window_bound_per_ip.
+
+(* from one node id *)
+Theorem C18_filter_window_bound_per_node :
+  forall evs f p r l A B y,
+    enabled f = true -> rate f = Some r -> node_rl r = Some l -> wfl l -> linv l (A - init_time r) ->
+    mem y (permit_nodes p) = false -> Forall (fun e => no_permit_node y (fst e)) evs ->
+    init_time r <= A -> mono_ev A evs -> Forall (fun e => snd e <= B) evs -> A <= B ->
+    (B - init_time r) + tau l + tau l < U64 ->
+    tt l * count_obs (node_stage_pass y) evs (snd (frun f p evs)) <= tau l + (B - A).
+Proof. exact filter_window_node. Qed.
+Print Assumptions C18_filter_window_bound_per_node.
+
+(* in total: all unsolicited datagrams of the source IPs in P, none of which is permit-listed
+   during the window (P = fun _ => true when the permit list stays empty) *)
+Theorem C18_filter_window_bound_total :
+  forall evs f p r A B (P : N -> bool),
+    enabled f = true -> rate f = Some r -> wfl (total_rl r) -> linv (total_rl r) (A - init_time r) ->
+    ips_unpermitted P p -> Forall (fun e => no_permit_ip P (fst e)) evs ->
+    init_time r <= A -> mono_ev A evs -> Forall (fun e => snd e <= B) evs -> A <= B ->
+    (B - init_time r) + tau (total_rl r) + tau (total_rl r) < U64 ->
+    tt (total_rl r) * count_obs (ip_stage_pass P) evs (snd (frun f p evs)) <= tau (total_rl r) + (B - A).
+Proof. exact filter_window_total. Qed.
+Print Assumptions C18_filter_window_bound_total.
+
+(* each of the three in the form of the property text: the number let through is at most
+   (tau + window) / t, which is burst + rate * window when max_tokens divides the period
+   (for the rounding otherwise see C18_rounding_of_the_token_period) *)
+Theorem C18_filter_window_bound_tokens :
+  forall n tau_ t_ win, 0 < t_ -> t_ * n <= tau_ + win -> n <= (tau_ + win) / t_.
+Proof. exact tokens_form. Qed.
+Print Assumptions C18_filter_window_bound_tokens.
+
+Theorem C18_filter_window_bound_burst_plus_rate :
+  forall n period m l win,
+    from_quota period m = Some l -> (m | period) -> tt l * n <= tau l + win ->
+    n <= m + (win * m) / period.
+Proof. exact burst_rate_form. Qed.
+Print Assumptions C18_filter_window_bound_burst_plus_rate.
+
+(* the hypotheses on a non-trivial history: quotas 3 per 1000 ns per IP, 100 per 1000 ns in total;
+   IP 9 sends a burst at time 50 (3 pass, the fourth is refused and bans it), IP 8 one datagram,
+   a prune in between: 3 of IP 9 pass in [50, 80], the bound is (1000 + 30) / 333 = 3 *)
+Example C18_filter_window_bound_example :
+  exists iq tq,
+    from_quota 1000 3 = Some iq /\ from_quota 1000 100 = Some tq /\
+    let r := {| init_time := 10; total_rl := tq; node_rl := None; ip_rl := Some iq |} in
+    let f := new_filter true (Some r) (Some 5000) None None in
+    let evs := [(FInbound false 9 None, 50); (FInitial 9, 50); (FInbound false 9 (Some None), 50);
+                (FInitial 9, 50); (FInitial 8, 60); (FPruneLimiter, 70); (FInitial 9, 80)] in
+    mono_ev 50 evs /\ Forall (fun e => no_permit_ip (N.eqb 9) (fst e)) evs /\
+    count_obs (ip_stage_pass (N.eqb 9)) evs (snd (frun f empty_pbl evs)) = 3 /\
+    (tau iq + (80 - 50)) / tt iq = 3.
+Proof. exact filter_window_ip_example. Qed.
+Print Assumptions C18_filter_window_bound_example.
